@@ -64,6 +64,11 @@ type PFCPConn struct {
 	// several triggers at once (release request, read timeout, heartbeat
 	// failure, node shutdown)
 	shutdownOnce sync.Once
+	// sessMu serialises the session message handlers (reader goroutine) with
+	// the teardown of the association (whichever goroutine triggers it);
+	// torndown is set under it once the sessions have been removed
+	sessMu   sync.Mutex
+	torndown bool
 
 	metrics.InstrumentPFCP
 
@@ -248,11 +253,18 @@ func (pConn *PFCPConn) shutdownConn() {
 		pConn.hbCtxCancel = nil
 	}
 
-	// Cleanup all sessions in this conn
+	// Cleanup all sessions in this conn. A session request that is being
+	// handled finishes first; one that arrives later finds no session (and an
+	// establishment is refused), so every session is removed exactly once.
+	pConn.sessMu.Lock()
+
 	for _, sess := range pConn.store.GetAllSessions() {
 		pConn.upf.SendMsgToUPF(upfMsgTypeDel, sess.PacketForwardingRules, PacketForwardingRules{})
 		pConn.RemoveSession(sess)
 	}
+
+	pConn.torndown = true
+	pConn.sessMu.Unlock()
 
 	rAddr := pConn.RemoteAddr().String()
 	pConn.done <- rAddr
